@@ -1,4 +1,5 @@
 import TsVerif.C20.Model
+import TsVerif.C20.Format
 /-!
 # C20 judge — the property's clauses decided on the REAL files and the REAL `parse_tests` results
 
@@ -46,6 +47,7 @@ def entryPasses (orc : Oracle) (e : Entry) : Bool :=
 
 structure JudgeIn where
   fx : Fixes
+  flt : Str → Bool        -- `matches_filter` of the update runs (constant `true` without a filter)
   os : Str
   orig : Str
   ent0 : List Entry
@@ -83,9 +85,17 @@ def judge (j : JudgeIn) : List String :=
   let suffix := if j.wrote1 && (firstSuffix lines0).isSome && !((bare lines1).all fun n => (bare lines1).count n ≤ (bare lines0).count n) then ["suffix-lost"] else []
   let pre := if !j.ent1.isEmpty && preamble j.os j.orig != preamble j.os j.after1 then ["preamble-deleted"] else []
   let wf := j.ent0.all fun e => e.attrs.cst || sexpLike e.output
-  let passes := if j.wrote1 && !(j.ent1.all (entryPasses j.orc)) then ["passes"] else []
+  -- only tests that the filter lets run are updated, hence required to pass
+  let passes := if j.wrote1 && !(j.ent1.all fun e => !j.flt e.name || entryPasses j.orc e) then ["passes"] else []
+  -- delimiter lengths are not expected outputs: they stay
+  let delims := if pres.isEmpty && j.ent0.length == j.ent1.length &&
+      !((j.ent0.zip j.ent1).all fun (a, b) => a.hlen == b.hlen && a.dlen == b.dlen) then ["delims-changed"] else []
+  -- a test the filter excludes from the run keeps its (well-formed) expectation
+  let keep := if pres.isEmpty && j.ent0.length == j.ent1.length &&
+      !((j.ent0.zip j.ent1).all fun (a, b) => j.flt a.name || !(a.attrs.cst || a.output.isEmpty || inFormatClass a.output) || a.output == b.output)
+    then ["filtered-expectation-changed"] else []
   let idem := if wf && j.after2 != j.after1 then ["idempotent"] else []
   let fmt := if j.sexps.all (fun s => normalizeSexp (trim (formatSexp j.fx s)) == s) then [] else ["format-normalize"]
-  pres ++ suffix ++ pre ++ passes ++ idem ++ fmt
+  pres ++ suffix ++ pre ++ delims ++ keep ++ passes ++ idem ++ fmt
 
 end TsVerif.C20
